@@ -7,6 +7,7 @@ import (
 	"errors"
 	"fmt"
 	"io"
+	"log/slog"
 	"net"
 	"os"
 	"strings"
@@ -122,6 +123,11 @@ func C42(e *simkern.Env) {
 			}
 			return 0
 		}
+		// the library logs through slog; a sink that can be slow (it parks the
+		// logging goroutine) puts scheduling points wherever the code logs
+		prevLog := slog.Default()
+		slog.SetDefault(slog.New(c42LogSink{sim}))
+		defer slog.SetDefault(prevLog)
 		hx.Rec.Reset()
 		w, err := listenw.New(sim)
 		if err != nil {
@@ -504,6 +510,18 @@ func C42(e *simkern.Env) {
 					if ok && emits > 0 && !e.Violated() {
 						ok = producer(rec, emits)
 					}
+					if ok && !e.Violated() && tp.Bool(1, 6) {
+						// the client gives up mid-call: it sends one more request and hangs
+						// up without reading the answer (the server's write of that answer
+						// fails; nothing of it may surface on any other connection)
+						nonce := nextNonce
+						nextNonce++
+						issued[nonce] = c42Call{nonce, rec.Name}
+						sc := &hx.Script{Nonce: nonce, Outcome: "ok", Logs: []hx.LogSpec{{Level: "INFO", Msg: fmt.Sprintf("log-%d", nonce)}}}
+						sim.Fault("client-abandons-call")
+						_, _ = rec.Client.Write(hx.RequestBytes("u_int", sc, hx.M(hx.KReqID, fmt.Sprintf("rq-%d", nonce))))
+						ok = false
+					}
 					if ok && tp.Bool(1, 2) {
 						think("client.linger") // hold the connection open while the clock moves
 					}
@@ -651,6 +669,20 @@ func C42(e *simkern.Env) {
 	e.Res.Sample = sample
 }
 
+// c42LogSink is a slog handler that may be slow: every record is a scheduling
+// point of the goroutine that logs it.
+type c42LogSink struct{ sim *simkern.Sim }
+
+func (c42LogSink) Enabled(context.Context, slog.Level) bool { return true }
+func (h c42LogSink) Handle(context.Context, slog.Record) error {
+	if h.sim.Current() != nil {
+		h.sim.Y("slog")
+	}
+	return nil
+}
+func (h c42LogSink) WithAttrs([]slog.Attr) slog.Handler { return h }
+func (h c42LogSink) WithGroup(string) slog.Handler      { return h }
+
 // c42PointerRequest writes the one-row parameter batch into the client's
 // segment and frames the zero-row pointer batch that stands in for it.
 func c42PointerRequest(seg *vgirpc.ShmSegment, method string, sc *hx.Script, rid string) ([]byte, error) {
@@ -739,7 +771,7 @@ func init() {
 		Stub:  []string{"listening socket and connections (listenw.Listener, hx.Pipe) behind the woven net.Listen seam", "socket file (regular stand-in file in a per-run scratch directory; created by bind, unlinked by the first Close like a net.Listen unix listener)", "protocol client (arrow-go IPC)", "scripted handlers and producer state"},
 		Quick: 640, Thorough: 32000,
 		Warm:       warmPipe,
-		FaultKinds: []string{"clock-advance", "operator-shutdown", "stale-socket-file", "serve-start-hook-fails", "transport-binding-flipped"},
+		FaultKinds: []string{"clock-advance", "operator-shutdown", "stale-socket-file", "serve-start-hook-fails", "transport-binding-flipped", "client-abandons-call"},
 		Assumptions: []string{
 			"a connection counts as open from the server's first Read on it until the first Close on either end; a connection the listener has handed out (or that sits in the backlog) but that the server has not begun to serve when the idle shutdown is decided races with the shutdown and may be served to completion or reset — no accept-based server can exclude that",
 			"idleness before a self-initiated stop is measured from the client-side close of the last served connection (never later than the server's own bookkeeping) or from bind; the instant judged is the listener's own Close, the return instant is only required to have no open connection",
